@@ -2,15 +2,12 @@
    [name_of ls] of a list of non-empty labels of at most 63 octets with a wire form of
    at most 255 octets, never panics, and such names pass validate_uncompressed_name. *)
 From QV Require Import Base.ListX Model.NameWire Spec.NameWireS Spec.NameRepr Proofs.NameWireP
-  Model.ZfReader Model.ZfParser Proofs.ZfReaderP.
+  Model.ZfReader Model.ZfParser Proofs.ZfReaderP Spec.ZfValidS.
 
 Local Open Scope nat_scope.
 
 Ltac feq := repeat (first [lia | reflexivity | f_equal]).
 
-Definition good_label (l : label) : Prop := 1 <= length l <= 63.
-Definition good_labels (ls : list label) : Prop := Forall good_label ls /\ wire_len ls <= 255.
-Definition good_name (nm : name) : Prop := exists ls, good_labels ls /\ nm = name_of ls.
 
 Lemma lwire_cons l r : lwire (l :: r) = N.of_nat (length l) :: l ++ lwire r.
 Proof. reflexivity. Qed.
